@@ -87,14 +87,15 @@ TRead == /\ Is("Read") /\ ~dead
          /\ Ev.r \in Readers /\ Ev.s \in AllStrs
          /\ LET o   == O(Ev.ret, Ev.val)
                 eff == IF Ev.errno = "asis" THEN errno ELSE Ev.errno
-                m   == Model(Dev, Ev.r, Ev.s, eff)
             IN /\ \/ /\ o \in Contract(Ev.r, Ev.s)
                      /\ devUsed' = devUsed
                   \/ /\ o \notin Contract(Ev.r, Ev.s)
-                     /\ m.dev \in Dev /\ o \in DevOuts(m)
-                     /\ devUsed' = devUsed \cup {m.dev}
-                     /\ PrintT(<<"DEVAT", l, m.dev>>)
-               /\ errno' = ErrnoAfter(Ev.r, eff)
+                     /\ \E e \in Readings(eff) :
+                          LET m == Model(Dev, Ev.r, Ev.s, e)
+                          IN /\ m.dev \in Dev /\ o \in DevOuts(m)
+                             /\ devUsed' = devUsed \cup {m.dev}
+                             /\ PrintT(<<"DEVAT", l, m.dev>>)
+               /\ errno' = ErrnoAfter(Ev.r, Ev.s, eff)
                /\ dead' = (Ev.val \in {"ub", "crash"})
          /\ UNCHANGED <<env, envalt, pool, provs>> /\ Keep
 
